@@ -5,6 +5,12 @@
 package main
 
 import (
+	"runtime"
+	"sync/atomic"
+	"time"
+
+	"github.com/prometheus/prometheus/util/verifhook"
+
 	"verif/harness/internal/gallina"
 )
 
@@ -26,6 +32,16 @@ func main() {
 		runScript(id, f.Seed, i, nil, cf, meta)
 		id++
 	}
+	// concurrent part: widen the window between nextBatch() and the encoding of the batch
+	var yield atomic.Uint64
+	verifhook.SetHandler(func(site string, _ int) {
+		switch yield.Add(1) % 4 {
+		case 0:
+			runtime.Gosched()
+		case 1:
+			time.Sleep(50 * time.Microsecond)
+		}
+	})
 	nConc := f.Count(20, 300)
 	for i := 0; i < nConc; i++ {
 		runConc(&id, f.Seed, 1000000+i, nil, cf, meta)
